@@ -108,6 +108,13 @@ func (fs *CASFileSystem) ChangeDir(path string) *CASFileSystem {
 }
 
 func (fs *CASFileSystem) open(name string) (iofs.File, error) {
+	return fs.openFollowing(name, 0)
+}
+
+// maxSymlinkHops is how many symlinks we follow before deciding we're in a loop (same as Linux's limit).
+const maxSymlinkHops = 40
+
+func (fs *CASFileSystem) openFollowing(name string, hops int) (iofs.File, error) {
 	fileNode, dirNode, linkNode, err := fs.findNode(fs.root, name)
 	if err != nil {
 		return nil, err
@@ -116,8 +123,10 @@ func (fs *CASFileSystem) open(name string) (iofs.File, error) {
 	if linkNode != nil {
 		if filepath.IsAbs(linkNode.Target) {
 			return nil, fmt.Errorf("%v: symlink target was absolute which is invalid", name)
+		} else if hops >= maxSymlinkHops {
+			return nil, fmt.Errorf("%v: too many levels of symbolic links", name)
 		}
-		return fs.open(filepath.Join(filepath.Dir(name), linkNode.Target))
+		return fs.openFollowing(filepath.Join(filepath.Dir(name), linkNode.Target), hops+1)
 	}
 
 	if fileNode != nil {
